@@ -35,12 +35,13 @@ does not redeclare the trait (keys ``inherited-getter/...``).  The legacy
 """
 import collections
 import copy
+import gc
 import pickle
 import sys
 import traceback
 
 from traits.api import (
-    HasTraits, Int, Str, Instance, List, Dict, Set, Property, cached_property,
+    HasTraits, Int, Float, Str, Instance, List, Dict, Set, Property, cached_property,
     push_exception_handler,
 )
 from traits.observation.api import (
@@ -71,6 +72,14 @@ META = {
              "uncached getters or cached getters) and the getter is supplied / overridden (cached "
              "over none / uncached, uncached over cached, every property flipped) by a subclass that "
              "does not redeclare the trait, incl. grand-children (keys prefixed inherited-getter/).  "
+             "Two small dedicated strata with their own classes and keys: instance-trait/ (the "
+             "observed leaf is a per-instance trait put on the nested object with add_trait before "
+             "it is attached; remove_trait + add_trait cycles of that name, re-added with the old "
+             "value as default or followed by an assignment, as one operation; owners cloned by "
+             "reference) and shared-owner-churn/ (three long-lived nested objects shared by "
+             "short-lived owners that are dropped, collected and replaced by bursts of fresh owners; "
+             "every change of a shared object is judged on every live owner; address reuse of dead "
+             "owners is counted).  "
              "The legacy depends_on strata are switched off (outside the statement).  "
              "distinct_nontrivial counts distinct (class flavour, listener mode, operation kind, "
              "origin of the operated object, set of dependency kinds whose state changed on it, "
@@ -98,7 +107,13 @@ META = {
                   "child_container_filled_in_place_from_empty": 250,
                   "histories_default_first_touched_in_constructor": 200,
                   "ctor_touched_default_changes_fresh": 500,
-                  "ctor_touched_default_changes_copy": 150},
+                  "ctor_touched_default_changes_copy": 150,
+                  "insttrait_reads_checked": 15000, "insttrait_value_changes": 4500,
+                  "insttrait_notifications_required": 6000,
+                  "insttrait_readd_cycles_on_observed_slot": 450, "insttrait_clones": 140,
+                  "churn_reads_checked": 20000, "churn_notifications_required": 1600,
+                  "churn_owners_collected": 1300, "churn_owner_address_reuse": 1000,
+                  "churn_shared_changes_judged_on_address_reusing_owners": 1100},
         "thorough": {"evaluations": 25000000, "reads_checked": 8000000, "relevant_changes": 1000000,
                      "value_changes": 800000, "notifications_required": 1000000,
                      "notifications_required_static": 300000,
@@ -118,7 +133,13 @@ META = {
                      "child_container_filled_in_place_from_empty": 8500,
                      "histories_default_first_touched_in_constructor": 7000,
                      "ctor_touched_default_changes_fresh": 17000,
-                     "ctor_touched_default_changes_copy": 5000},
+                     "ctor_touched_default_changes_copy": 5000,
+                     "insttrait_reads_checked": 400000, "insttrait_value_changes": 120000,
+                     "insttrait_notifications_required": 160000,
+                     "insttrait_readd_cycles_on_observed_slot": 12000, "insttrait_clones": 4000,
+                     "churn_reads_checked": 550000, "churn_notifications_required": 45000,
+                     "churn_owners_collected": 35000, "churn_owner_address_reuse": 27000,
+                     "churn_shared_changes_judged_on_address_reusing_owners": 30000},
     },
     "assumptions": [
         "the getters are pure functions of the declared dependencies; the harness recomputes the "
@@ -306,9 +327,13 @@ ST = _State()
 
 
 def _rec(obj, name, mech, new):
-    kinds = PROPS[name][0]
     read = getattr(obj, name)
-    ST.log.append((obj.sn, name, mech, read, compute(obj, kinds), new))
+    mini = getattr(type(obj), "_mini_props", None)
+    if mini is not None:
+        want = mini[name][0](obj)          # classes of the small dedicated strata
+    else:
+        want = compute(obj, PROPS[name][0])
+    ST.log.append((obj.sn, name, mech, read, want, new))
 
 
 def _otc_handler(obj, name, old, new):
@@ -498,6 +523,7 @@ COPY_KINDS = ("pickle2", "pickle3", "pickle4", "pickle5", "deepcopy", "clone", "
 LABEL_TOUCH = {}
 for _n in ("l_append", "l_insert", "l_extend", "l_remove", "l_pop", "l_del", "l_delslice", "l_set",
            "l_setslice", "l_setext", "l_sort", "l_reverse", "l_clear", "l_imul", "l_iadd",
+           "l_overlap", "l_overlap",
            "l_assign"):
     LABEL_TOUCH[_n] = ("L", "T")       # a list event also reaches items.items.tags.items
 for _n in ("d_set", "d_del", "d_pop", "d_update", "d_clear", "d_setdefault", "d_popitem",
@@ -1134,6 +1160,23 @@ class History:
             sl = slice(None, None, step if abs(step) > 1 else 2)
             k = len(range(n)[sl])
             lst[sl] = [self.item(o, (refs[i % len(refs)] if refs else i)) for i in range(k)]
+        elif name == "l_overlap":
+            # slice assignment whose new items overlap the replaced ones with a different
+            # multiplicity (the same object on both sides of one list event)
+            if 0 < n <= 6:      # (one list event only: the list is never trimmed afterwards)
+                i, j = p % n, q % n
+                lo, hi = min(i, j), max(i, j) + 1
+                old = list(lst[lo:hi])
+                mode = abs(step) + (1 if p < 0 else 0)
+                if mode == 1:
+                    lst[lo:hi] = old + [old[0]]              # one more occurrence
+                elif mode == 2:
+                    lst[i:i + 1] = [lst[i]] * (2 + (q < 0))  # x -> x, x(, x)
+                elif mode == 3:
+                    lst[:] = list(lst) + [lst[j]]            # whole-list slice, one more
+                else:
+                    lst[lo:hi] = old[::-1][:-1] + [old[-1], old[-1]] if len(old) > 1 \
+                        else [old[0], old[0]]
         elif name == "l_sort":
             lst.sort(key=lambda i: i.v, reverse=p < 0)
         elif name == "l_reverse":
@@ -1490,8 +1533,9 @@ def _okind(origin):
 
 
 # ---------------------------------------------------------------------------
-def shrink(spec, ops, key):
+def shrink(spec, ops, key, engine=None):
     """Greedy one-at-a-time removal keeping the same mechanism key."""
+    engine = engine or History
     ops = list(ops)
     i = len(ops) - 2
     budget = 60
@@ -1499,7 +1543,7 @@ def shrink(spec, ops, key):
         trial = ops[:i] + ops[i + 1:]
         budget -= 1
         try:
-            k = History(NullSink(), spec, trial).run()
+            k = engine(NullSink(), spec, trial).run()
         except Exception:  # noqa: BLE001
             k = None
         if k == key:
@@ -1519,7 +1563,9 @@ class _ShrinkingSink:
         if witness and self.ctx.viol_per_key.get(key, 0) < 3:
             saved = (ST.calls, ST.log, ST.excs, ST.probe, ST.serial)
             try:
-                small = shrink(witness["spec"], witness["ops"], key)
+                engine = {InstanceTraitHistory.pfx: InstanceTraitHistory,
+                          ChurnHistory.pfx: ChurnHistory}.get(witness.get("stratum"))
+                small = shrink(witness["spec"], witness["ops"], key, engine)
                 witness = dict(witness)
                 witness["shrunk_ops"] = small
                 message = "%s | shrunk history (%d ops): %s" % (
@@ -1529,6 +1575,643 @@ class _ShrinkingSink:
             finally:
                 ST.calls, ST.log, ST.excs, ST.probe, ST.serial = saved
         self.ctx.violation(key, message, witness)
+
+
+# ===========================================================================
+# Small dedicated strata (own classes, own keys / counters, same laws):
+#   instance-trait/...        the observed leaf is a per-INSTANCE trait (add_trait) of a nested
+#                             object, with remove_trait / add_trait cycles
+#   shared-owner-churn/...    long-lived nested objects shared by short-lived owners that are
+#                             dropped, collected and replaced by bursts of fresh owners (so that
+#                             addresses of dead owners get reused)
+
+def _mini_getter(pname, fn):
+    def getter(self):
+        ST.calls[(self.sn, pname)] += 1
+        return fn(self)
+    getter.__name__ = "_get_" + pname
+    return getter
+
+
+def _mini_class(name, traits, props, static=()):
+    """props: name -> (pure function, cached, observe expression)."""
+    ns = {"__module__": __name__, "__qualname__": name, "sn": Int(transient=True), "irr": Int}
+    ns.update(traits)
+    for pname, (fn, cached, expr) in props.items():
+        ns[pname] = Property(observe=expr)
+        g = _mini_getter(pname, fn)
+        ns["_get_" + pname] = cached_property(g) if cached else g
+    for pname in static:
+        ns["_%s_changed" % pname] = _make_static(pname)
+    cls = type(HasTraits)(name, (HasTraits,), ns)
+    cls._mini_props = collections.OrderedDict((k, (v[0], v[1])) for k, v in props.items())
+    cls._static_props = frozenset(static)
+    return cls
+
+
+class MiniRec:
+    __slots__ = ("obj", "sn", "origin", "mechs", "win")
+
+
+class MiniHistory:
+    """Shared judge of the small strata: after every operation every LIVE owner is judged by
+    the laws of the main stratum (reads == recomputation, cached getter at most once per
+    relevant change, >= 1 notification per recorder when the value changed, handler reads
+    coherent, untouched owners stay quiet)."""
+    pfx = ""
+    cpfx = ""
+
+    def __init__(self, sink, spec, ops):
+        self.sink, self.spec, self.ops = sink, spec, ops
+        self.live = []
+        self.trace = []
+        self.step = -1
+
+    # hooks --------------------------------------------------------------
+    def fp(self, o):
+        """prop -> comparable fingerprint of its dependencies (identity + values)."""
+        raise NotImplementedError
+
+    def fail(self, key, msg, **extra):
+        w = {"spec": self.spec, "ops": self.trace, "step": self.step, "stratum": self.pfx}
+        w.update(extra)
+        self.sink.violation(self.pfx + key, "%s [class %s, listen=%s, step %d, op %r]"
+                            % (msg, self.spec["cls"], self.spec["listen"], self.step,
+                               self.trace[-1] if self.trace else None), w)
+        raise Stop(self.pfx + key)
+
+    def count(self, name, n=1):
+        self.sink.count(self.cpfx + name, n)
+
+    def attach(self, obj, origin):
+        r = MiniRec()
+        r.obj, r.sn, r.origin = obj, ST.next_serial(), origin
+        obj.sn = r.sn
+        r.mechs, r.win = {}, {}
+        mode, dyn = self.spec["listen"], self.spec["dyn"]
+        for i, (pname, (fn, cached)) in enumerate(type(obj)._mini_props.items()):
+            mechs = set()
+            if pname in type(obj)._static_props:
+                mechs.add("static")
+            if dyn >> i & 1:
+                if mode in ("otc", "both"):
+                    obj.on_trait_change(_otc_handler, pname)
+                    mechs.add("otc")
+                if mode in ("obs", "both"):
+                    obj.observe(_obs_handler, pname)
+                    mechs.add("obs")
+            r.mechs[pname] = mechs
+            if cached:
+                r.win[pname] = [0, 1]
+        self.live.append(r)
+        return r
+
+    def judged_step(self, fam, fn, touched=None, mult=1, reads=1, mask=-1):
+        """Run fn() as one operation; `touched` maps serial -> property names that an event
+        may have reached without a change of the fingerprint (lenient window reset)."""
+        sink = self.sink
+        live = list(self.live)
+        pre = {r.sn: (self.fp(r.obj), self.vals(r.obj)) for r in live}
+        calls0 = {(r.sn, p): ST.calls[(r.sn, p)] for r in live for p in r.win}
+        ST.log[:] = []
+        ST.excs[:] = []
+        self.count("ops")
+        try:
+            fn()
+        except Stop:
+            raise
+        except Exception as e:  # noqa: BLE001
+            self.fail("op-raised/%s/%s" % (fam, type(e).__name__),
+                      "operation raised %r: %s" % (e, traceback.format_exc()[-600:]))
+        if ST.excs:
+            ch, name, tname, rep = ST.excs[0]
+            self.fail("handler-exception/%s/%s" % (ch, tname),
+                      "exception inside a notification handler: trait %r: %s" % (name, rep))
+        log = list(ST.log)
+        for sn, pname, mech, read, want, newarg in log:
+            sink.ev()
+            self.count("handler_reads_checked")
+            if read != want:
+                self.fail("notify/handler-read-stale/%s/%s" % (mech, fam),
+                          "inside the %s handler for %s the property reads %r, recomputation "
+                          "there gives %r" % (mech, pname, read, want), prop=pname)
+        touched = touched or {}
+        any_change = False
+        for r in [x for x in live if x in self.live]:
+            fp0, v0s = pre[r.sn]
+            fp1, v1s = self.fp(r.obj), self.vals(r.obj)
+            for pname, (f, cached) in type(r.obj)._mini_props.items():
+                fp_changed = fp0[pname] != fp1[pname]
+                relevant = fp_changed or pname in touched.get(r.sn, ())
+                v0, v1 = v0s[pname], v1s[pname]
+                recs = [x for x in log if x[0] == r.sn and x[1] == pname]
+                ck = "cached" if cached else "uncached"
+                if relevant:
+                    self.count("relevant_changes")
+                if v0 != v1:
+                    any_change = True
+                    self.count("value_changes")
+                    for mech in r.mechs[pname]:
+                        sink.ev()
+                        self.count("notifications_required")
+                        mrecs = [x for x in recs if x[2] == mech]
+                        if not mrecs:
+                            self.fail("notify/missing/%s/%s/%s" % (mech, ck, fam),
+                                      "%s of owner #%d (%s) changed from %r to %r but the %s "
+                                      "recorder got no notification"
+                                      % (pname, r.sn, r.origin, v0, v1, mech), prop=pname)
+                        if mrecs[-1][4] != v1:
+                            self.fail("notify/last-notification-not-final/%s/%s/%s"
+                                      % (mech, ck, fam),
+                                      "%s of owner #%d ended at %r but the last %s notification "
+                                      "saw %r" % (pname, r.sn, v1, mech, mrecs[-1][4]), prop=pname)
+                elif not relevant:
+                    sink.ev()
+                    self.count("quiet_checks")
+                    if recs:
+                        self.fail("isolation/notified-without-change/%s/%s" % (ck, fam),
+                                  "%s of owner #%d (%s) was notified although none of its "
+                                  "dependencies changed" % (pname, r.sn, r.origin), prop=pname)
+                if cached:
+                    runs = ST.calls[(r.sn, pname)] - calls0[(r.sn, pname)]
+                    w = r.win[pname]
+                    if relevant:
+                        w[0], w[1] = runs, mult
+                    else:
+                        w[0] += runs
+                    sink.ev()
+                    self.count("cached_windows_checked")
+                    if w[0] > w[1]:
+                        self.fail("recompute/during-op/%s"
+                                  % (fam if relevant else "no-relevant-change:" + fam),
+                                  "cached getter of %s of owner #%d ran %d times (allowed %d)"
+                                  % (pname, r.sn, w[0], w[1]), prop=pname)
+        # reads on every live owner
+        for r in list(self.live):
+            vals = self.vals(r.obj)
+            for i, (pname, (f, cached)) in enumerate(type(r.obj)._mini_props.items()):
+                if not (mask >> i & 1) or not reads:
+                    continue
+                c0 = ST.calls[(r.sn, pname)]
+                for _ in range(reads):
+                    got = getattr(r.obj, pname)
+                    sink.ev()
+                    self.count("reads_checked")
+                    if got != vals[pname]:
+                        self.fail("stale-read/%s/%s" % ("cached" if cached else "uncached", pname),
+                                  "property %s of owner #%d (%s) reads %r, recomputation from the "
+                                  "current state gives %r" % (pname, r.sn, r.origin, got,
+                                                              vals[pname]), prop=pname)
+                if cached:
+                    w = r.win[pname]
+                    w[0] += ST.calls[(r.sn, pname)] - c0
+                    sink.ev()
+                    self.count("cached_windows_checked")
+                    if w[0] > w[1]:
+                        self.fail("recompute/on-read/%s" % fam,
+                                  "cached getter of %s of owner #%d ran %d times (allowed %d) since "
+                                  "the last relevant change" % (pname, r.sn, w[0], w[1]),
+                                  prop=pname)
+        if any_change or log:
+            sink.sig(self.pfx, self.spec["cls"], self.spec["listen"], fam, len(self.live) > 1,
+                     sorted(set(x[2] for x in log)), any_change)
+
+    def vals(self, o):
+        return {p: f(o) for p, (f, c) in type(o)._mini_props.items()}
+
+    def run(self):
+        ST.reset()
+        try:
+            try:
+                self.setup()
+                for op in self.ops:
+                    self.step += 1
+                    self.trace.append(op)
+                    self.one(op)
+            except Stop:
+                raise
+            except Exception as e:  # noqa: BLE001
+                self.fail("library-raised/%s" % type(e).__name__,
+                          "unexpected %r: %s" % (e, traceback.format_exc()[-900:]))
+        except Stop as st:
+            return st.key
+        return None
+
+
+# ---- instance-trait stratum -------------------------------------------------
+class Slot(HasTraits):
+    base = Int(1)
+    # `gain` is NOT declared: it is put on each instance with add_trait
+
+
+def _g_slot(o):
+    s = o.slot
+    return None if s is None else s.gain
+
+
+def _g_slot_base(o):
+    s = o.slot
+    return None if s is None else (s.base, s.gain)
+
+
+def _g_slots(o):
+    return tuple([s.gain for s in o.slots])
+
+
+def _g_dslots(o):
+    return tuple(sorted([(k, s.gain) for k, s in o.ds.items()]))
+
+
+_IT_TRAITS = dict(slot=Instance(Slot, copy="ref"), slots=List(Instance(Slot), copy="ref"),
+                  ds=Dict(Str, Instance(Slot), copy="ref"))
+OG = _mini_class("OG", dict(_IT_TRAITS), collections.OrderedDict([
+    ("cg", (_g_slot, True, "slot.gain")),
+    ("ug", (_g_slot, False, "slot.gain")),
+    ("cgb", (_g_slot_base, True, "slot.[gain,base]")),
+    ("ch", (_g_slots, True, "slots.items.gain")),
+    ("uh", (_g_slots, False, ["slots.items.gain"])),
+    ("cd", (_g_dslots, True, "ds.items.gain")),
+]), static=("cg", "ch", "uh"))
+OGX = _mini_class("OGX", dict(_IT_TRAITS), collections.OrderedDict([
+    ("cg", (_g_slot, True, _otrait("slot").trait("gain"))),
+    ("ug", (_g_slot, False, _otrait("slot").trait("gain", optional=True))),
+    ("cgb", (_g_slot_base, True, _otrait("slot").trait("gain") | _otrait("slot").trait("base"))),
+    ("ch", (_g_slots, True, _otrait("slots").list_items().trait("gain"))),
+    ("uh", (_g_slots, False, _otrait("slots").list_items().trait("gain", optional=True))),
+    ("cd", (_g_dslots, True, [_otrait("ds").dict_items().trait("gain")])),
+]), static=("cgb", "cd"))
+IT_CLASSES = {"OG": OG, "OGX": OGX}
+
+
+def _new_slot(v, flt):
+    s = Slot()
+    # the instance trait exists BEFORE the slot is attached to any owner
+    s.add_trait("gain", Float(v + 0.5) if flt else Int(v))
+    return s
+
+
+def gen_it_history(rng, steps):
+    spec = {"cls": rng.choice(sorted(IT_CLASSES)),
+            "listen": rng.choice(["none", "otc", "obs", "both", "both"]),
+            "dyn": rng.getrandbits(6) | rng.getrandbits(6)}
+    ops = []
+    for _ in range(steps):
+        c = rng.random()
+        op = {"r": rng.randrange(3), "m": rng.getrandbits(6) | rng.getrandbits(6),
+              "sel": rng.randrange(12), "own": rng.randrange(4)}
+        if c < 0.26:
+            op["op"], op["x"] = "gain_set", [rng.randrange(5)]
+        elif c < 0.40:
+            op["op"], op["x"] = "cycle_keep", [rng.randrange(2)]
+        elif c < 0.54:
+            op["op"], op["x"] = "cycle_set", [rng.randrange(2), rng.randrange(4), rng.randrange(3)]
+        elif c < 0.60:
+            op["op"], op["x"] = "base_set", [rng.randrange(4)]
+        elif c < 0.70:
+            op["op"], op["x"] = "slot_set", [rng.randrange(-3, 8), rng.randrange(2)]
+        elif c < 0.82:
+            op["op"] = rng.choice(["slots_append", "slots_append", "slots_pop", "slots_assign",
+                                   "slots_remove", "ds_set", "ds_set", "ds_del"])
+            op["x"] = [rng.randrange(-3, 8), rng.randrange(2), rng.randrange(2)]
+        elif c < 0.90:
+            op["op"], op["x"] = "clone", []
+        else:
+            op["op"], op["x"] = "irr", []
+        ops.append(op)
+    return spec, ops
+
+
+class InstanceTraitHistory(MiniHistory):
+    pfx = "instance-trait/"
+    cpfx = "insttrait_"
+
+    def fp(self, o):
+        s = o.slot
+        g = (s, None if s is None else (s.trait("gain"), s.gain, s.base))
+        ss = list(o.slots)
+        h = (ss, [(x.trait("gain"), x.gain) for x in ss])
+        dk = sorted(o.ds)
+        dd = (dk, [o.ds[k] for k in dk], [(o.ds[k].trait("gain"), o.ds[k].gain) for k in dk])
+        return {"cg": g, "ug": g, "cgb": g, "ch": h, "uh": h, "cd": dd}
+
+    def setup(self):
+        self.cls = IT_CLASSES[self.spec["cls"]]
+        self.pool = [_new_slot(i, i % 2) for i in range(3)]
+        o = self.cls(slot=self.pool[0], slots=[self.pool[0], self.pool[1], self.pool[1]],
+                     ds={"k": self.pool[1]})
+        self.attach(o, "fresh")
+
+    def slots_of(self, o):
+        out = [o.slot] if o.slot is not None else []
+        out += list(o.slots) + [o.ds[k] for k in sorted(o.ds)]
+        return out
+
+    def pick(self, o, sel):
+        """A slot: negative => brand new, else one held by the owner / another owner / pool."""
+        c = self.slots_of(o)
+        for r in self.live:
+            if r.obj is not o:
+                c += self.slots_of(r.obj)[:2]
+        c += self.pool
+        return c[sel % len(c)]
+
+    def holders(self, slot):
+        """serial -> properties that depend on `slot` right now."""
+        out = {}
+        for r in self.live:
+            o = r.obj
+            ps = set()
+            if o.slot is slot:
+                ps.update(("cg", "ug", "cgb"))
+            if any(x is slot for x in o.slots):
+                ps.update(("ch", "uh"))
+            if any(x is slot for x in o.ds.values()):
+                ps.add("cd")
+            if ps:
+                out[r.sn] = ps
+        return out
+
+    def one(self, op):
+        name, x = op["op"], op["x"]
+        r = self.live[-1] if op["own"] or len(self.live) == 1 else self.live[op["sel"] % len(self.live)]
+        o = r.obj
+        touched, mult, fam = None, 1, name
+        if name == "gain_set":
+            s = self.pick(o, op["sel"])
+            v = x[0] + 0.5 if isinstance(s.gain, float) else x[0]
+
+            def fn():
+                s.gain = v
+            fam = "gain-set"
+        elif name in ("cycle_keep", "cycle_set"):
+            # remove_trait + add_trait of the same name on a slot that is (usually) attached;
+            # the re-added trait must be observed again.  remove_trait/add_trait themselves are
+            # silent (enthought/traits#1047), so cycle_keep re-adds with the old value as
+            # default (value unchanged) and cycle_set assigns a non-default value at the end
+            # (one change event), both as ONE operation.
+            s = self.pick(o, op["sel"])
+            touched = self.holders(s)
+            # cycle_keep keeps the type (an Int default cannot hold 2.5); cycle_set may switch it
+            flt = isinstance(s.gain, float) if name == "cycle_keep" else bool(x[0])
+            self.count("readd_cycles")
+            if touched:
+                self.count("readd_cycles_on_observed_slot")
+            if name == "cycle_keep":
+                def fn():
+                    v = s.gain
+                    s.remove_trait("gain")
+                    s.add_trait("gain", Float(float(v)) if flt else Int(int(v)))
+                fam = "readd-same-value"
+            else:
+                d, k = x[1], x[2]
+
+                def fn():
+                    s.remove_trait("gain")
+                    s.add_trait("gain", Float(d + 0.5) if flt else Int(d))
+                    s.gain = (d + 1.5 + k) if flt else (d + 1 + k)
+                fam = "readd-then-set"
+        elif name == "base_set":
+            s = self.pick(o, op["sel"])
+
+            def fn():
+                s.base = x[0]
+            fam = "class-trait-set"
+        elif name == "slot_set":
+            s = _new_slot(-x[0], x[1]) if x[0] < 0 else self.pick(o, x[0])
+            if x[0] < 0:
+                self.pool.append(s)
+                del self.pool[:-4]
+
+            def fn():
+                o.slot = s
+            fam = "slot-set"
+        elif name.startswith("slots_") or name.startswith("ds_"):
+            s = _new_slot(-x[0], x[1]) if x[0] < 0 else self.pick(o, x[0])
+            touched = {r.sn: ("ch", "uh") if name.startswith("slots_") else ("cd",)}
+
+            def fn():
+                if name == "slots_append":
+                    o.slots.append(s)
+                elif name == "slots_pop":
+                    if o.slots:
+                        o.slots.pop(0 if x[2] else -1)
+                elif name == "slots_remove":
+                    if o.slots:
+                        o.slots.remove(o.slots[op["sel"] % len(o.slots)])
+                elif name == "slots_assign":
+                    o.slots = [s, self.pick(o, op["sel"])] if x[2] else [s, s]
+                elif name == "ds_set":
+                    o.ds[DKEYS[x[2]]] = s
+                else:
+                    o.ds.pop(DKEYS[x[2]], None)
+            fam = "container"
+        elif name == "clone":
+            holder = []
+
+            def fn():
+                holder.append(o.clone_traits())      # copy="ref": shares every slot
+            fam = "clone-ref"
+        else:
+            def fn():
+                o.irr += 1
+            fam = "irrelevant"
+        self.judged_step(fam, fn, touched, mult, reads=0)
+        if name == "clone":
+            self.attach(holder[0], "clone")
+            self.count("clones")
+            if len(self.live) > 3:
+                del self.live[0]
+        # the reads happen after a possible new owner was attached
+        self.judged_step("reads", lambda: None, None, 1, reads=op["r"], mask=op["m"])
+
+
+# ---- shared-owner-churn stratum ---------------------------------------------------
+class Shared(HasTraits):
+    v = Int
+    tags = List(Int)
+
+
+def _r_c1(o):
+    return (o.own, None if o.sh is None else o.sh.v)
+
+
+def _r_u1(o):
+    return None if o.sh is None else o.sh.v
+
+
+def _r_c2(o):
+    return tuple([x.v for x in o.shs])
+
+
+def _r_c3(o):
+    return None if o.sh is None else tuple(o.sh.tags)
+
+
+_R_TRAITS = dict(own=Int, sh=Instance(Shared), shs=List(Instance(Shared)))
+OR = _mini_class("OR", dict(_R_TRAITS), collections.OrderedDict([
+    ("c1", (_r_c1, True, "sh.v, own")),
+    ("u1", (_r_u1, False, "sh.v")),
+    ("c2", (_r_c2, True, "shs.items.v")),
+    ("c3", (_r_c3, True, "sh.tags.items")),
+]), static=("c1", "c2"))
+ORN = _mini_class("ORN", dict(_R_TRAITS), collections.OrderedDict([
+    ("c1", (_r_c1, True, ["sh.v", "own"])),
+    ("u1", (_r_u1, False, _otrait("sh").trait("v"))),
+    ("c2", (_r_c2, True, _otrait("shs").list_items().trait("v"))),
+    ("c3", (_r_c3, True, _otrait("sh").trait("tags").list_items())),
+]))
+R_CLASSES = {"OR": OR, "ORN": ORN}
+
+
+def gen_churn_history(rng, steps):
+    spec = {"cls": rng.choice(sorted(R_CLASSES)),
+            "listen": rng.choice(["none", "none", "otc", "obs", "both"]),
+            "dyn": rng.getrandbits(4) | rng.getrandbits(4)}
+    ops = []
+    for _ in range(steps):
+        c = rng.random()
+        op = {"r": rng.randrange(3), "m": rng.getrandbits(4) | rng.getrandbits(4),
+              "sel": rng.randrange(12)}
+        if c < 0.22:
+            op["op"], op["x"] = "drop", [rng.randrange(1, 4)]
+        elif c < 0.44:
+            op["op"], op["x"] = "spawn", [rng.randrange(1, 5), rng.randrange(8)]
+        elif c < 0.50:
+            op["op"], op["x"] = "drop_spawn", [rng.randrange(1, 4), rng.randrange(8)]
+        elif c < 0.72:
+            op["op"], op["x"] = "shared_v", [rng.randrange(3), rng.randrange(5)]
+        elif c < 0.80:
+            op["op"], op["x"] = "shared_tags", [rng.randrange(3), rng.randrange(3)]
+        elif c < 0.87:
+            op["op"], op["x"] = "own_set", [rng.randrange(4)]
+        elif c < 0.94:
+            op["op"], op["x"] = "rewire", [rng.randrange(3), rng.randrange(3)]
+        else:
+            op["op"], op["x"] = "irr", []
+        ops.append(op)
+    return spec, ops
+
+
+class ChurnHistory(MiniHistory):
+    pfx = "shared-owner-churn/"
+    cpfx = "churn_"
+    MAXLIVE = 5
+
+    def fp(self, o):
+        sh = o.sh
+        shs = list(o.shs)
+        a = (o.own, sh, None if sh is None else sh.v)
+        return {"c1": a, "u1": a[1:], "c2": (shs, [x.v for x in shs]),
+                "c3": (sh, None if sh is None else (id(sh.tags), tuple(sh.tags)))}
+
+    def setup(self):
+        self.cls = R_CLASSES[self.spec["cls"]]
+        self.shared = [Shared(v=i) for i in range(3)]     # live for the whole history
+        self.dead_ids = set()
+        self.dropped = []           # weak references of dropped owners (never the owners)
+        self.spawn(2, 0)
+
+    def spawn(self, k, variant):
+        for j in range(k):
+            sh = self.shared
+            o = self.cls(own=j, sh=sh[(variant + j) % 3],
+                         shs=[sh[variant % 3], sh[(variant + 1 + j) % 3], sh[variant % 3]])
+            self.count("owners_created")
+            if id(o) in self.dead_ids:
+                # allocated at the address of a collected owner that observed the same objects
+                self.count("owner_address_reuse")
+            r = self.attach(o, "spawn")
+            del o
+            # fill the caches right away (a later change must invalidate them)
+            for pname in type(r.obj)._mini_props:
+                getattr(r.obj, pname)
+            for pname in r.win:
+                r.win[pname] = [0, 1]
+        while len(self.live) > self.MAXLIVE:
+            self.drop_one(0)
+
+    def drop_one(self, idx):
+        import weakref
+        r = self.live.pop(idx % len(self.live))
+        i, w = id(r.obj), weakref.ref(r.obj)
+        r.obj = None
+        del r
+        if w() is not None:
+            gc.collect()
+            self.count("gc_collect_needed")
+        if w() is None:
+            self.dead_ids.add(i)
+            self.count("owners_collected")
+        else:
+            self.count("owners_not_collected")
+
+    def one(self, op):
+        name, x = op["op"], op["x"]
+        sh = self.shared
+        if name == "drop":
+            for _ in range(min(x[0], len(self.live) - 1)):
+                self.drop_one(op["sel"])
+            fn, fam = (lambda: None), "drop"
+        elif name == "spawn":
+            fn, fam = (lambda: self.spawn(x[0], x[1])), "spawn"
+        elif name == "drop_spawn":
+            def fn():
+                n = min(x[0], len(self.live))
+                for _ in range(n):
+                    self.drop_one(0)
+                self.spawn(n, x[1])
+            fam = "drop-then-spawn"
+        elif name == "shared_v":
+            def fn():
+                sh[x[0]].v = x[1]
+            fam = "shared-object-change"
+            self.count("shared_changes")
+        elif name == "shared_tags":
+            def fn():
+                if x[1]:
+                    sh[x[0]].tags.append(x[1])
+                elif sh[x[0]].tags:
+                    sh[x[0]].tags.pop()
+            fam = "shared-container-change"
+            self.count("shared_changes")
+        elif name == "own_set":
+            o = self.live[op["sel"] % len(self.live)].obj
+
+            def fn():
+                o.own = x[0]
+            fam = "own-trait"
+        elif name == "rewire":
+            o = self.live[op["sel"] % len(self.live)].obj
+
+            def fn():
+                if x[1] == 0:
+                    o.sh = sh[x[0]]
+                elif x[1] == 1:
+                    o.shs.append(sh[x[0]])
+                elif o.shs:
+                    o.shs.pop()
+            fam = "rewire"
+            touched = {o.sn: ("c2",)} if x[1] else None
+            self.judged_step(fam, fn, touched, 1, reads=op["r"], mask=op["m"])
+            return
+        else:
+            o = self.live[op["sel"] % len(self.live)].obj
+
+            def fn():
+                o.irr += 1
+            fam = "irrelevant"
+        if name in ("drop", "spawn", "drop_spawn"):
+            # structural operations: executed outside the judge (they create / destroy owners),
+            # the judge then reads every live owner
+            fn()
+            self.judged_step(fam, lambda: None, None, 1, reads=op["r"], mask=op["m"])
+        else:
+            self.judged_step(fam, fn, None, 1, reads=op["r"], mask=op["m"])
+            if fam.startswith("shared"):
+                self.count("shared_changes_judged_on_owners", len(self.live))
+                self.count("shared_changes_judged_on_address_reusing_owners",
+                           len([r for r in self.live if id(r.obj) in self.dead_ids]))
+
 
 
 def midflight(ctx, rng):
@@ -1602,6 +2285,29 @@ def run(ctx):
             continue
         finally:
             ctx.end()
+    # small dedicated strata (own keys and counters)
+    for tag, gen, engine, n, steps2 in (
+            ("it", gen_it_history, InstanceTraitHistory, ctx.scale(320, 9000), 25),
+            ("churn", gen_churn_history, ChurnHistory, ctx.scale(320, 9000), 30)):
+        for h in range(n):
+            if not ctx.mine(h):
+                continue
+            cid = "%s:%d" % (tag, h)
+            if not ctx.begin(cid):
+                continue
+            try:
+                spec, ops = gen(ctx.rng(tag, h), steps2)
+                engine(sink, spec, ops).run()
+                ctx.count(tag + "_histories")
+                if h < 2 and ctx.shard < 2:
+                    ctx.sample({"stratum": engine.pfx, "class": spec["cls"],
+                                "listeners": spec["listen"],
+                                "first_ops": [[o["op"], o["x"]] for o in ops[:8]]})
+            except CaseTimeout:
+                ctx.timed_out({"case": cid})
+                continue
+            finally:
+                ctx.end()
     nm = ctx.scale(160, 1600)
     for m in range(nm):
         if not ctx.mine(m):
